@@ -1,6 +1,7 @@
 from cfg.common import FLOAT_ASSUMPTION, NOTE_COMMON
 
 PROP = {
+    'anchors': [('consist/consist_utils.rs', 'solve_positive_traction'), ('consist/consist_utils.rs', 'solve_negative_traction'), ('consist/consist_utils.rs', 'get_pwr_regen_vec'), ('consist/consist_model.rs', 'solve_energy_consumption'), ('consist/consist_model.rs', 'set_cur_pwr_max_out'), ('consist/consist_model.rs', 'set_pwr_dyn_brake_max'), ('consist/locomotive/powertrain/electric_drivetrain.rs', 'set_cur_pwr_regen_max'), ('consist/locomotive/powertrain/electric_drivetrain.rs', 'set_pwr_in_req')],
     'blocks': ['pt'],
     'proof_modules': ['C10'],
     'namespaces': ['Altrios.Proofs.C10'],
